@@ -241,7 +241,7 @@ theorem slice_zero {α} (s : List α) (k : Nat) : slice s 0 (k : Int) = Glb.slic
 theorem stepOK_body {σ ρ} {cond : σ → M Bool} {body : σ → M (Ctl σ ρ)} {post : σ → M σ}
     {Inv : σ → Prop} {measure : σ → Nat} {model : σ → M (Sum σ ρ)} (st : σ) (c : Ctl σ ρ)
     (hc : cond st = .ok true) (hb : body st = .ok c)
-    (h : match c with
+    (h : match (generalizing := false) c with
          | .ret r => model st = .ok (.inr r)
          | .brk s => model st = .ok (.inl s)
          | .next s =>
@@ -254,5 +254,299 @@ theorem stepOK_body {σ ρ} {cond : σ → M Bool} {body : σ → M (Ctl σ ρ)}
   simp only
   rw [hb]
   cases c <;> exact h
+
+/-! ### the translated inner loop -/
+
+def ScanInv (nm : Bytes) (st : ScanSt) : Prop :=
+  st.1 = [] ∧ st.2.1 = nm ∧ st.2.2.1 = false ∧ 0 ≤ st.2.2.2 ∧ st.2.2.2 ≤ (nm.length : Int) + 1
+
+def scanMeasure (nm : Bytes) (st : ScanSt) : Nat := ((nm.length : Int) + 1 - st.2.2.2).toNat
+
+def scanModel {ρ : Type} (nm : Bytes) (st : ScanSt) : M (Sum ScanSt ρ) :=
+  scanExit nm ((nm.length : Int) + 2 - st.2.2.2).toNat st.2.2.2.toNat
+
+/-- the loop rule instantiated for the `=` scan: whatever the generated condition / body / post
+    lambdas are, if one evaluation of them agrees with `scanExit` (`scan_step` proves this for the
+    lambdas found in the goal), the whole loop is `scanExit` with the fuel of the model's `splitEq` -/
+theorem scan_loop_eq {ρ : Type} {C : ScanSt → M Bool} {B : ScanSt → M (Ctl ScanSt ρ)}
+    {P : ScanSt → M ScanSt} (nm : Bytes)
+    (hstep : ∀ nm st, ScanInv nm st → StepOK C B P (ScanInv nm) (scanMeasure nm) (scanModel nm) st) :
+    loop ([], nm, false, 1) ((nm.length : Int) - 1 + 2).toNat C B P = scanExit nm (nm.length + 1) 1 := by
+  rw [loop_eq (ScanInv nm) (scanMeasure nm) (scanModel nm) (hstep nm)]
+  · simp only [scanModel]
+    have h1 : ((nm.length : Int) + 2 - 1).toNat = nm.length + 1 := by omega
+    have h2 : (1 : Int).toNat = 1 := rfl
+    rw [h1, h2]
+  · refine ⟨rfl, rfl, rfl, ?_, ?_⟩ <;> dsimp only <;> omega
+  · simp only [scanMeasure]; omega
+
+-- one evaluation of the translated `=` scan (for the lambdas found in the goal)
+set_option hygiene false in
+local macro "scan_step" : tactic => `(tactic| (
+  intro nm ⟨av, n, hv, i⟩ ⟨h1, h2, h3, h0, hle⟩
+  dsimp only at h1 h2 h3 h0 hle
+  subst h2
+  subst h1 h3
+  obtain ⟨k, rfl⟩ : ∃ k : Nat, i = k := ⟨i.toNat, by omega⟩
+  simp only [StepOK, scanModel, scanMeasure, ScanInv, idx_int, idxI_nat, Int.toNat_natCast]
+  by_cases hlt : k < (List.length n)
+  · have hlt' : (k : Int) < (List.length n : Int) := by omega
+    have hf : ((List.length n : Int) + 2 - k).toNat = ((List.length n) - k + 1) + 1 := by omega
+    have hk1 : (k : Int) + 1 = ((k + 1 : Nat) : Int) := by omega
+    rw [hf, scanExit]
+    simp only [hlt, hlt', decide_true, if_true, hk1, sliceFrom_nat, slice_zero, bind, Except.bind]
+    cases hc : Glb.idx? n k with
+    | error e => simp only
+    | ok c =>
+      simp only
+      by_cases he : c = equals
+      · subst he
+        have he' : (equals == 61) = true := by decide
+        simp only [he', if_true]
+        cases Glb.slice? n (k + 1) (List.length n) with
+        | error e => simp only
+        | ok v => cases Glb.slice? n 0 k <;> simp only [pure, Except.pure]
+      · have he' : (c == 61) = false := by
+          simp only [beq_eq_false_iff_ne, ne_eq]; exact he
+        simp only [he', he, if_false, Bool.false_eq_true]
+        refine ⟨⟨trivial, trivial, trivial, by omega, by omega⟩, by omega, ?_⟩
+        have e1 : ((List.length n : Int) + 2 - ((k : Int) + 1)).toNat = (List.length n) - k + 1 := by omega
+        have e2 : ((k : Int) + 1).toNat = k + 1 := by omega
+        rw [e1, e2]
+  · have hlt' : ¬ (k : Int) < (List.length n : Int) := by omega
+    have hf : ((List.length n : Int) + 2 - k).toNat = ((List.length n) + 1 - k) + 1 := by omega
+    rw [hf, scanExit]
+    simp only [hlt, hlt', decide_false, if_false, pure, Except.pure]))
+
+-- The iteration from the `=` scan on, for a name `b :: t` whose first byte is not '-' (`hb`), in a
+-- token `tok` with `hcl : classify tok = classifyBody (b :: t)`; the goal starts at the test
+-- `name[0] == '='` of the translated body.
+set_option hygiene false in
+local macro "flag_tail" : tactic => `(tactic| (
+  rw [scan_loop_eq (b :: t) (by scan_step)]
+  obtain ⟨j, hj⟩ := scanExit_cons (ρ := Res) b t
+  rw [hj]
+  have hrest0 : ∀ (v : Bytes) (r : List Bytes), Glb.Go.idx (v :: r) (0 : Nat) = .ok v :=
+    fun _ _ => rfl
+  have hrest1 : ∀ (v : Bytes) (r : List Bytes), sliceFrom (v :: r) 1 = .ok r := by
+    intro v r; simp [sliceFrom_one, Glb.slice?]
+  by_cases hbe : b = equals
+  · subst hbe
+    have hb61 : (equals == 61) = true := by decide
+    simp [hb61, stepSpec, hcl, classifyBody, ctlOf, render, msgOf]
+  · have hb61 : (b == 61) = false := by
+      simp only [beq_eq_false_iff_ne, ne_eq]; exact hbe
+    simp only [hb61, Bool.false_eq_true, if_false]
+    cases hl : lookup (b :: (breakEq t).1) with
+    | none =>
+      cases hv : (breakEq t).2 <;>
+        simp [hl, hv, stepSpec, hcl, classifyBody, ctlOf, render, msgOf, hb, hbe]
+    | some isBool =>
+      cases hv : (breakEq t).2 with
+      | some v =>
+        simp [hl, hv, stepSpec, hcl, classifyBody, ctlOf, hb, hbe]
+      | none =>
+        cases isBool with
+        | true =>
+          simp [hl, hv, stepSpec, hcl, classifyBody, ctlOf, hb, hbe, trueText]
+        | false =>
+          cases rest with
+          | nil =>
+            simp [hl, hv, stepSpec, hcl, classifyBody, ctlOf, render, msgOf, hb, hbe]
+          | cons v r =>
+            simp [hl, hv, stepSpec, hcl, classifyBody, ctlOf, hb, hbe, hrest0, hrest1]))
+
+/-! ### the tie -/
+
+theorem argParse_exit (lookup : Bytes → Option Bool) (args : List Bytes) (assigns : List (Bytes × Bytes)) :
+    Glb.Tr.Config.argParse lookup args assigns
+      = (exitLoop lookup (args.length + 1) ⟨assigns, args⟩).map finish := by
+  unfold Glb.Tr.Config.argParse
+  dsimp only
+  rw [loop_eq (σ := LoopSt) (ρ := Res)
+    (Inv := fun _ => True)
+    (measure := fun st => st.1.length)
+    (model := fun st => exitLoop lookup (st.1.length + 1) ⟨st.2, st.1⟩)]
+  · -- the code after the loop
+    dsimp only
+    cases exitLoop lookup (args.length + 1) ⟨assigns, args⟩ with
+    | error e => rfl
+    | ok x => cases x <;> rfl
+  · -- one evaluation of the outer loop
+    intro ⟨args, as⟩ _
+    cases args with
+    | nil => simp [StepOK, exitLoop, pure, Except.pure]
+    | cons tok rest =>
+      refine stepOK_body _ (ctlOf (stepSpec lookup as tok rest)) ?_ ?_ ?_
+      · simp [pure, Except.pure]
+      · dsimp only
+        have hargs : Glb.Go.idx (tok :: rest) (0 : Nat) = .ok tok := rfl
+        have hrest : sliceFrom (tok :: rest) 1 = .ok rest := by
+          simp [sliceFrom_one, Glb.slice?]
+        match tok with
+        | [] =>
+          simp [hargs, stepSpec, classify, ctlOf, render, bind, Except.bind, pure, Except.pure]
+        | [a] =>
+          simp [hargs, stepSpec, classify, ctlOf, render, bind, Except.bind, pure, Except.pure]
+        | c :: b :: t =>
+          have hlen : ¬ (((t.length + 1 + 1 : Nat) : Int) < 2) := by omega
+          have hc0 : Glb.Go.idx (c :: b :: t) (0 : Nat) = .ok c := rfl
+          simp only [hargs, hrest, len_eq, List.length_cons, hlen, hc0, bind, Except.bind, pure, Except.pure,
+            decide_false, Bool.false_eq_true, if_false]
+          by_cases hc : c = dash
+          · subst hc
+            have hd1 : sliceFrom (dash :: b :: t) 1 = .ok (b :: t) := by
+              simp [sliceFrom_one, Glb.slice?]
+            have hd0 : Glb.Go.idx (b :: t) (0 : Nat) = .ok b := rfl
+            have h45 : (dash != 45) = false := by decide
+            simp only [h45, Bool.false_eq_true, if_false, hd1, hd0]
+            by_cases hb : b = dash
+            · -- "--…"
+              subst hb
+              have hd45 : (dash == 45) = true := by decide
+              simp only [hd45, if_true]
+              cases t with
+              | nil =>
+                simp [stepSpec, classify, ctlOf, render]
+              | cons b t =>
+                have hl1 : ((((dash :: b :: t).length : Nat) : Int) == 1) = false := by
+                  simp only [beq_eq_false_iff_ne, ne_eq, List.length_cons]; omega
+                have hs : sliceFrom (dash :: b :: t) 1 = .ok (b :: t) := by
+                  simp [sliceFrom_one, Glb.slice?]
+                have hl0 : ((((b :: t).length : Nat) : Int) == 0) = false := by
+                  simp only [beq_eq_false_iff_ne, ne_eq, List.length_cons]; omega
+                have hb0 : Glb.Go.idx (b :: t) (0 : Nat) = .ok b := rfl
+                simp only [hl1, hs, hl0, hb0, Bool.false_eq_true, if_false]
+                by_cases hb : b = dash
+                · subst hb
+                  simp [hd45, stepSpec, classify, classifyBody, ctlOf, render, msgOf]
+                · have hb45 : (b == 45) = false := by
+                    simp only [beq_eq_false_iff_ne, ne_eq]; exact hb
+                  have hcl : classify (dash :: dash :: b :: t) = classifyBody (b :: t) := by
+                    simp [classify]
+                  simp only [hb45, Bool.false_eq_true, if_false]
+                  flag_tail
+            · -- "-…"
+              have hb45 : (b == 45) = false := by
+                simp only [beq_eq_false_iff_ne, ne_eq]; exact hb
+              have hl0 : ((((b :: t).length : Nat) : Int) == 0) = false := by
+                simp only [beq_eq_false_iff_ne, ne_eq, List.length_cons]; omega
+              have hcl : classify (dash :: b :: t) = classifyBody (b :: t) := by
+                simp [classify, hb]
+              simp only [hb45, hl0, Bool.false_eq_true, if_false]
+              flag_tail
+          · have h45 : (c != 45) = true := by
+              simp only [bne_iff_ne, ne_eq]; exact hc
+            simp [h45, stepSpec, classify, ctlOf, render, hc]
+      · -- the model side of the same iteration
+        dsimp only
+        have hm : exitLoop lookup ((tok :: rest).length + 1) ⟨as, tok :: rest⟩ =
+            match stepSpec lookup as tok rest with
+            | .ret r => .ok (.inr (render r))
+            | .cont s' => exitLoop lookup (rest.length + 1) s' := by
+          rw [List.length_cons, exitLoop]
+          simp only [List.length_cons, Nat.zero_lt_succ, if_true, Glb.ArgParse.body_spec, bind,
+            Except.bind, gt_iff_lt]
+          cases stepSpec lookup as tok rest <;> rfl
+        rw [hm]
+        have hlt := body_cont_lt lookup ⟨as, tok :: rest⟩
+        rw [Glb.ArgParse.body_spec] at hlt
+        cases hsp : stepSpec lookup as tok rest with
+        | ret r => simp only [ctlOf]
+        | cont s' =>
+          have hlt' := hlt s' (by rw [hsp])
+          simp only [ctlOf, pure, Except.pure, true_and]
+          refine ⟨hlt', ?_⟩
+          exact exitLoop_fuel lookup _ _ s' (by simpa using hlt') (by omega)
+  · trivial
+  · simp only [len_eq]; omega
+
+/-- `(*FlagSet).argParse` of config/config.go, as translated, started with `f.args = args` and the
+    stores `assigns` already recorded, is the model's loop from that state (with the fuel the model
+    gives itself), rendered as `(f.args, stores, error)`.  Panics included: both sides perform the
+    same index / slice expressions with the same helpers (and, by `never_panics`, none fails). -/
+theorem argParse_loop_eq (lookup : Bytes → Option Bool) (args : List Bytes) (assigns : List (Bytes × Bytes)) :
+    Glb.Tr.Config.argParse lookup args assigns
+      = (Glb.ArgParse.loop lookup (args.length + 1) ⟨assigns, args⟩).map render := by
+  rw [argParse_exit, exitLoop_loop]
+
+/-- The translated command-line scanner equals the hand model the C10 theorems are about, for every
+    flag table and every argument vector (full equality in `Except GoPanic`, payloads included). -/
+theorem argParse_eq (lookup : Bytes → Option Bool) (argv : List Bytes) :
+    Glb.Tr.Config.argParse lookup argv [] = (Glb.ArgParse.argParse lookup argv).map render := by
+  rw [argParse_loop_eq]
+  rfl
+
+/-! ### the C10 theorems, restated about the translated code -/
+
+/-- no index or slice expression of the translated `argParse` panics, and its loops never run out
+    of the fuel the translator gave them -/
+theorem argParse_translated_never_panics (lookup : Bytes → Option Bool) (argv : List Bytes) :
+    ∃ r, Glb.Tr.Config.argParse lookup argv [] = .ok r := by
+  obtain ⟨r, h⟩ := Glb.C10.never_panics lookup argv
+  exact ⟨render r, by rw [argParse_eq, h]; rfl⟩
+
+/-- the `f.args` the translated code leaves behind (also after an error) is a suffix of argv -/
+theorem argParse_translated_args_suffix (lookup : Bytes → Option Bool) (argv : List Bytes)
+    (r : Res) (h : Glb.Tr.Config.argParse lookup argv [] = .ok r) : r.1 <:+ argv := by
+  obtain ⟨m, hm⟩ := Glb.C10.never_panics lookup argv
+  have hs := Glb.C10.args_is_suffix lookup argv m hm
+  rw [argParse_eq, hm] at h
+  injection h with h
+  subst h
+  cases m <;> exact hs
+
+/-- the translated code returns exactly what the documented grammar (`ArgvGrammar.parse`) says:
+    `nil` with the same stores and remaining arguments, or the error message of the same class -/
+theorem argParse_translated_refines_grammar (lookup : Bytes → Option Bool) (argv : List Bytes) :
+    ∃ r : Res, Glb.Tr.Config.argParse lookup argv [] = .ok r ∧
+      match Glb.ArgvGrammar.parse lookup argv with
+      | .ok as rest => r = (rest, as, none)
+      | .err e => r.2.2 = some (msgOf e) := by
+  obtain ⟨m, hm, hspec⟩ := Glb.C10.argParse_refines_grammar lookup argv
+  refine ⟨render m, by rw [argParse_eq, hm]; rfl, ?_⟩
+  rw [← hspec]
+  cases m <;> rfl
+
+/-- the translated code returns `nil` exactly on the vectors the grammar accepts -/
+theorem argParse_translated_success_exactly (lookup : Bytes → Option Bool) (argv : List Bytes)
+    (as : List (Bytes × Bytes)) (rest : List Bytes) :
+    Glb.Tr.Config.argParse lookup argv [] = .ok (rest, as, none) ↔
+      ∃ pre tail, argv = pre ++ tail ∧ Glb.ArgvGrammar.WellFormed lookup pre as ∧
+        Glb.ArgvGrammar.Ends tail rest := by
+  rw [← Glb.C10.success_exactly, argParse_eq]
+  obtain ⟨m, hm⟩ := Glb.C10.never_panics lookup argv
+  rw [hm]
+  cases m with
+  | ok s =>
+    obtain ⟨a, b⟩ := s
+    simp [Except.map, render]
+    constructor
+    · rintro ⟨rfl, rfl⟩; exact ⟨rfl, rfl⟩
+    · rintro ⟨rfl, rfl⟩; exact ⟨rfl, rfl⟩
+  | err e s => simp [Except.map, render]
+
+/-- the three messages are pairwise distinct and determine the offending token / name -/
+theorem msgOf_injective (e e' : ArgErr) (h : msgOf e = msgOf e') : e = e' := by
+  cases e <;> cases e' <;> simp [msgOf] at h <;> simp [h]
+
+/-- the translated code fails with the message of class `e` exactly when, after a well-formed
+    prefix, the next token is the violation `e` (C10 `errors_exactly`) -/
+theorem argParse_translated_errors_exactly (lookup : Bytes → Option Bool) (argv : List Bytes) (e : ArgErr) :
+    (∃ args as, Glb.Tr.Config.argParse lookup argv [] = .ok (args, as, some (msgOf e))) ↔
+      ∃ pre as tok rest, argv = pre ++ tok :: rest ∧ Glb.ArgvGrammar.WellFormed lookup pre as ∧
+        Glb.ArgvGrammar.Offends lookup tok rest e := by
+  rw [← Glb.C10.errors_exactly, argParse_eq]
+  obtain ⟨m, hm⟩ := Glb.C10.never_panics lookup argv
+  rw [hm]
+  cases m with
+  | ok s => simp [Except.map, render]
+  | err e' s =>
+    simp only [Except.map, render, Except.ok.injEq, Prod.mk.injEq, Option.some.injEq, Result.err.injEq]
+    constructor
+    · rintro ⟨_, _, _, _, h⟩
+      exact ⟨s, msgOf_injective _ _ h, rfl⟩
+    · rintro ⟨_, rfl, rfl⟩
+      exact ⟨_, _, rfl, rfl, rfl⟩
 
 end Glb.Tie.TrArgs
